@@ -1,4 +1,132 @@
-/- Model driver for C03 (stub: not built yet). -/
-import Driver.Common
+/-
+Model driver for C03 (exe model_c03).  One op per line:
 
-def main : IO Unit := pure ()
+  lay <script>     builder script (same tokens as harness/c03.cpp `lay`)
+                   → `<hex of HostileLayout.build> <ok|oob: Layout.decodeAll of it> <Guards 0|1>`
+  xmlmon <hex>     XML document → tokenizer → builder-protocol monitor (Model/HostileXml.lean)
+                   → `fine` | `ub:<kind>` | `dbg:<kind>` | `tokerr` (outside the tokenizer's domain)
+-/
+import Driver.Common
+import Osmium.Model.HostileLayout
+import Osmium.Model.HostileXml
+
+open Osmium Osmium.HostileLayout Osmium.Layout
+
+namespace C03Driver
+
+def bytes? (s : String) : Option Bytes := Driver.unhex s
+
+def splitC (s : String) (c : String) : List String := s.splitOn c
+
+def dropN (s : String) (n : Nat) : String := (s.drop n).toString
+
+/-- tokens up to (not including) the closing token -/
+def untilTok (close : String) : List String → List String × List String
+  | [] => ([], [])
+  | t :: ts => if t == close then ([], ts) else let (a, b) := untilTok close ts; (t :: a, b)
+
+def parseTags (ts : List String) : Option (List (Bytes × Bytes)) :=
+  ts.mapM fun t =>
+    match splitC (dropN t 2) "=" with
+    | [k, v] => do pure (← bytes? k, ← bytes? v)
+    | _ => none
+
+def parseNodes (ts : List String) : Option (List NodeRefS) :=
+  ts.mapM fun t =>
+    match splitC t ":" with
+    | [_, r, x, y] => do pure ⟨← r.toInt?, ← x.toInt?, ← y.toInt?⟩
+    | _ => none
+
+def parseMembers (ts : List String) : Option (List MemberS) :=
+  ts.mapM fun t =>
+    match splitC t ":" with
+    | [_, ty, r, role] => do pure ⟨← ty.toNat?, ← r.toInt?, ← bytes? role⟩
+    | _ => none
+
+/-- `c:<date>:<uid>:<user>` optionally followed by `x:<text>` -/
+def parseComments : Nat → List String → Option (List CommentS)
+  | 0, _ => none
+  | _, [] => some []
+  | f + 1, t :: ts =>
+    match splitC t ":" with
+    | ["c", d, u, user] => do
+      let d ← d.toNat?
+      let u ← u.toNat?
+      let user ← bytes? user
+      match ts with
+      | t2 :: ts2 =>
+        match splitC t2 ":" with
+        | ["x", text] => do
+          let text ← bytes? text
+          let rest ← parseComments f ts2
+          pure (⟨d, u, user, some text⟩ :: rest)
+        | _ => do
+          let rest ← parseComments f ts
+          pure (⟨d, u, user, none⟩ :: rest)
+      | [] => pure [⟨d, u, user, none⟩]
+    | _ => none      -- a text without comment: the builders' behaviour is not modelled by `build`
+
+def parseSubs : Nat → List String → Option (List SubS)
+  | 0, _ => none
+  | _, [] => some []
+  | f + 1, t :: ts =>
+    if t == "T" then
+      let (a, b) := untilTok "t" ts
+      do pure (.tags (← parseTags a) :: (← parseSubs f b))
+    else if t == "L" then
+      let (a, b) := untilTok "l" ts
+      do pure (.nodes tyWayNodeList (← parseNodes a) :: (← parseSubs f b))
+    else if t == "M" then
+      let (a, b) := untilTok "e" ts
+      do pure (.members (← parseMembers a) :: (← parseSubs f b))
+    else if t == "D" then
+      let (a, b) := untilTok "d" ts
+      do pure (.discussion (← parseComments (a.length + 1) a) :: (← parseSubs f b))
+    else none
+
+def parseScript (ws : List String) : Option ObjS :=
+  match ws with
+  | k :: rest =>
+    let kind? : Option OKind :=
+      if k == "N" then some .node else if k == "W" then some .way else if k == "R" then some .relation
+      else if k == "A" then some .area else if k == "C" then some .changeset else none
+    match kind? with
+    | none => none
+    | some kind =>
+      let (user?, rest) : Option Bytes × List String :=
+        match rest with
+        | t :: ts => if t.startsWith "u:" then (bytes? (dropN t 2), ts) else (some [], t :: ts)
+        | [] => (some [], [])
+      match user?, parseSubs (rest.length + 1) rest with
+      | some user, some subs => some { kind := kind, fixed := ctorFixed kind, user := user, subs := subs }
+      | _, _ => none
+  | [] => none
+
+def xmlmon (doc : Bytes) : String :=
+  match XmlFmt.tokenize doc with
+  | none => "tokerr"
+  | some evs =>
+    match HostileXml.monitor {} evs with
+    | none => "fine"
+    | some m => m.name
+
+def step (line : String) : String :=
+  match Driver.words line with
+  | "lay" :: ws =>
+    match parseScript ws with
+    | none => "bad-op"
+    | some o =>
+      -- the bytes the builders never write are 0 in a fresh harness buffer? no: the harness prints what
+      -- is there; `fill` is taken from the environment of the check (ASan malloc fill = 0xbe)
+      let b := build 0xbe o
+      let v := match decodeAll b with | .ok _ => "ok" | .error _ => "oob"
+      Driver.hex b ++ " " ++ v ++ " " ++ (if decide (Guards 0xbe o) then "1" else "0")
+  | ["xmlmon", h] =>
+    match Driver.unhex h with
+    | some bs => xmlmon bs
+    | none => "bad-op"
+  | _ => "bad-op"
+
+end C03Driver
+
+def main : IO Unit := Driver.loopPure C03Driver.step
